@@ -658,12 +658,12 @@ func prefixSweep(env *vh.Env, rep *vh.Report, rng *vh.Rng, encs []enc) {
 	var lines []string
 	var lineOf [][2]int // (enc, index in results[enc])
 	for ei, e := range encs {
-		if e.kind != "value" && e.kind != "pack" && !strings.HasPrefix(e.kind, "prim:") {
+		if e.kind != "value" && e.kind != "mapvalue" && e.kind != "pack" && !strings.HasPrefix(e.kind, "prim:") {
 			continue
 		}
 		cmd := func(b []byte) string {
 			switch {
-			case e.kind == "value":
+			case e.kind == "value", e.kind == "mapvalue": // ReadMapValue = ReadValue on the map tag (nil otherwise)
 				return "V " + vh.Hex(b)
 			case e.kind == "pack": // the transcribed reader layout of the pack type, instrumented (FailClosed.toA)
 				return "LP " + vh.Hex(b)
@@ -747,7 +747,7 @@ func prefixSweep(env *vh.Env, rep *vh.Report, rng *vh.Rng, encs []enc) {
 				if modelFail[[2]int{ei, k}] {
 					if e.kind == "pack" {
 						// no as-found model of the pack layouts
-					} else if e.kind == "value" {
+					} else if e.kind == "value" || e.kind == "mapvalue" {
 						asFoundLines = append(asFoundLines, "VF "+vh.Hex(e.b[:r.n]))
 					} else {
 						asFoundLines = append(asFoundLines, "RF "+e.kind[5:]+" "+vh.Hex(e.b[:r.n]))
